@@ -64,7 +64,12 @@ let check_line (l : string) : string =
             | None -> None))
     | "LK" -> if s.err then None else cstep s (LLock (nat lb.c))
     | "RFU" -> if s.err then cstep s (LLock (nat lb.c)) else None
-    | "HO" -> if s.done_closed = (lb.a = 1) then None else cstep s (LHandoff (nat lb.c))
+    | "HO" ->
+      (* once done is closed both branches of the hand-over select may be ready: the send goroutine can still
+         take the request (it then drops it: clnt.err is set) - the model has only the done branch for that
+         state, with the same visible behaviour. Before the close, the hand-over must be a real one. *)
+      if s.done_closed then cstep s (LHandoff (nat lb.c))
+      else if lb.a = 1 then cstep s (LHandoff (nat lb.c)) else None
     | "RF" ->
       let kd = (match lb.b with 2 -> KRerror | 3 -> KOther | _ -> KMatch) in
       (match cstep s (LRecvFrame (n_of_int lb.a, kd)) with
